@@ -73,6 +73,15 @@ pub struct Session {
 
 impl Session {
     pub fn new() -> Session {
+        #[cfg(feature = "hooks")]
+        {
+            // a fresh Machine is never built under an armed injector
+            use std::sync::atomic::Ordering;
+            scryer_prolog::verif::VIRT_LIMIT.store(0, Ordering::SeqCst);
+            scryer_prolog::verif::GROW_FAIL.set(0);
+            scryer_prolog::verif::INSTR.set(0);
+            scryer_prolog::verif::clear_interrupt();
+        }
         let out = Rc::new(RefCell::new(Vec::new()));
         let streams = StreamConfig::in_memory().with_user_output(OutputStreamConfig::callback(
             Box::new({
